@@ -2,7 +2,7 @@
 # runs wtFsCheck on S3 and wtAxCheck on S4 (harness output) of every given file
 import subprocess, sys, os, re, tempfile
 H='/verif/harness/target/debug/scc-harness'
-M='/tmp/agent_m3/lean/.lake/build/bin/m3test'
+M=os.environ.get('M3TEST','/verif/lean/.lake/build/bin/m3test')
 def stages(f, upto=4):
     r=subprocess.run([H],input=f"stages {f} {upto}\n",capture_output=True,text=True)
     d={}
@@ -20,6 +20,6 @@ n=0
 for f in sys.argv[1:]:
     d=stages(f)
     if d.get('S3',('',))[0]!='OK': continue
-    a=run('wtfs',d['S3'][1]); b=run('wtax',d['S4'][1]); n+=1
+    a=run('wtfs',d['S3'][1])+' '+run('wtfs2',d['S3'][1]); b=run('wtax',d['S4'][1]); n+=1
     print(os.path.basename(f),'S3:',a,'S4:',b)
 print(n,"programs")
